@@ -278,12 +278,16 @@ pub fn gen_c03(rng: &mut Rng, caseid: u64, unix: bool, bound_ms: u64) -> Gen {
             let ch = gen::gen_chunking(rng, len, 500);
             wire_body = gen::encode_chunked(&designated, &ch);
             let cl = *rng.pick(&[0usize, 3, 10, 5000]);
+            // transfer-coding names are case-insensitive
+            let tev = rng.pick_s(&[" chunked", " Chunked", " CHUNKED", "chunked", " cHUNKED"]);
+            let cln = case_name(rng, "Content-Length");
+            let ten = case_name(rng, "Transfer-Encoding");
             if rng.chance(1, 2) {
-                a.add("Content-Length", &format!(" {}", cl));
-                a.add("Transfer-Encoding", " chunked");
+                a.add(&cln, &format!(" {}", cl));
+                a.add(&ten, tev);
             } else {
-                a.add("Transfer-Encoding", " chunked");
-                a.add("Content-Length", &format!(" {}", cl));
+                a.add(&ten, tev);
+                a.add(&cln, &format!(" {}", cl));
             }
             // the statement is silent on whether the ignored Content-Length is reported
             lenexp = LenExp::Any;
@@ -306,6 +310,7 @@ pub fn gen_c03(rng: &mut Rng, caseid: u64, unix: bool, bound_ms: u64) -> Gen {
         as_reader_calls: rng.range(1, 2),
         finish: Finish::Respond { status: 200, body_len: 10, declared: true, threshold: None, max_piece: 1000 },
         pre_delay_us: 0,
+        zero_read_after: None,
     };
     p.push_valid(&a, &wire_body, designated, lenexp, plan, kind_label);
     let mut tail: Vec<u8> = Vec::new();
@@ -365,7 +370,10 @@ pub fn gen_c09(rng: &mut Rng, caseid: u64, unix: bool, bound_ms: u64) -> Gen {
         1 => Finish::Drop,
         _ => Finish::Writer { status: 200, body_len: 20, parts: vec![(30, false), (1000, true)], early_drop_sleep_us: 0 },
     };
-    let plan = ReqPlan { read: consume.clone(), read_sizes: read_sizes(rng, len), as_reader_calls: 1, finish, pre_delay_us: 0 };
+    // a zero-length read (`read(&mut [])`) somewhere in the middle is an ordinary thing for an
+    // application to do; message boundaries must hold after it as well
+    let zero = if !matches!(consume, ReadPlan::None) && rng.chance(1, 4) { Some(rng.below(3)) } else { None };
+    let plan = ReqPlan { read: consume.clone(), read_sizes: read_sizes(rng, len), as_reader_calls: 1, finish, pre_delay_us: 0, zero_read_after: zero };
     let clabel = plan.read_label(len);
     let flabel = plan.finish_label();
     p.push_valid(&a, &wire_body, designated, LenExp::Any, plan, kind);
@@ -377,11 +385,15 @@ pub fn gen_c09(rng: &mut Rng, caseid: u64, unix: bool, bound_ms: u64) -> Gen {
     let case = p.finish(rng, &format!("{}/{}", kind, clabel), unix, &[], !last_closes, bound_ms);
     let mut judge = Judge::all();
     judge.head_fidelity = false;
+    if zero.is_some() {
+        // what the body reader returns after a zero-length read is not this property's business
+        judge.body = false;
+    }
     let partial = matches!(clabel, "part" | "none");
     Gen {
         case,
         judge,
-        sig: if partial || clabel == "all-no-eof" { Some(format!("{}|{}|{}|{}", kind, len, clabel, flabel)) } else { None },
+        sig: if partial || clabel == "all-no-eof" || zero.is_some() { Some(format!("{}|{}|{}|{}|z{}", kind, len, clabel, flabel, zero.is_some())) } else { None },
         extra: Default::default(),
     }
 }
@@ -459,7 +471,8 @@ pub fn gen_c10(rng: &mut Rng, caseid: u64, unix: bool, bound_ms: u64) -> Gen {
                 let l = *rng.pick(&["Foo bar", "Foobar", "NoColonHere value", "X-A", "Content-Length 5"]);
                 class_label = "header-no-colon".to_string();
                 let before = if rng.chance(1, 2) { "Host: h\r\n" } else { "" };
-                p.reqs.push(raw_wire(format!("{} {} HTTP/1.1\r\n{}{}\r\nAccept: */*\r\n\r\n", method, target, before, l).into_bytes(), &class_label));
+                let ver = *rng.pick(&["HTTP/1.1", "HTTP/1.1", "HTTP/1.0"]);
+                p.reqs.push(raw_wire(format!("{} {} {}\r\n{}{}\r\nAccept: */*\r\n\r\n", method, target, ver, before, l).into_bytes(), &class_label));
                 p.exp_responses.push(err_resp(400));
                 stopped = true;
             }
@@ -478,8 +491,14 @@ pub fn gen_c10(rng: &mut Rng, caseid: u64, unix: bool, bound_ms: u64) -> Gen {
                 class_label = format!("expect:{}", v);
                 let name = case_name(rng, "Expect");
                 let body = if rng.chance(1, 2) { "Content-Length: 5\r\n" } else { "" };
+                // the expectation is unsupported whatever the protocol version says
+                let ver = *rng.pick(&["HTTP/1.1", "HTTP/1.1", "HTTP/1.0"]);
+                if ver == "HTTP/1.0" {
+                    class_label.push_str("@1.0");
+                }
+                let ka = if ver == "HTTP/1.0" && rng.chance(1, 2) { "Connection: keep-alive\r\n" } else { "" };
                 p.reqs.push(raw_wire(
-                    format!("{} {} HTTP/1.1\r\nHost: h\r\n{}{}: {}\r\n\r\n", method, target, body, name, v).into_bytes(),
+                    format!("{} {} {}\r\nHost: h\r\n{}{}{}: {}\r\n\r\n", method, target, ver, ka, body, name, v).into_bytes(),
                     &class_label,
                 ));
                 p.exp_responses.push(err_resp(417));
@@ -656,7 +675,7 @@ pub fn gen_c16(rng: &mut Rng, caseid: u64, unix: bool, bound_ms: u64) -> Gen {
             1 => ("Transfer-Encoding".to_string(), "chunked".to_string()),
             _ => (rng.pick(&["X-Custom", "Host2", "Accept", "Cookie"]).to_string(), "abc".to_string()),
         };
-        let mutation = rng.below(4);
+        let mutation = rng.below(5);
         let mut head = format!("POST {} HTTP/1.1\r\n", target);
         let first = rng.chance(1, 2);
         if !first {
@@ -676,6 +695,18 @@ pub fn gen_c16(rng: &mut Rng, caseid: u64, unix: bool, bound_ms: u64) -> Gen {
             2 => {
                 label = format!("ws-before-colon/{}", ["cl", "te", "other"][which]);
                 head.push_str(&format!("{}{}: {}\r\n", hname, ws, hval));
+            }
+            3 => {
+                // a line made only of whitespace: an (empty) obsolete line folding, it "begins
+                // with whitespace" and must not be taken for the end of the head either
+                label = "ws-only-line".to_string();
+                if rng.chance(1, 2) {
+                    head.push_str(&format!("{}: {}\r\n", hname, hval));
+                }
+                head.push_str(&format!("{}\r\n", ws));
+                if rng.chance(1, 2) {
+                    head.push_str("X-After: 1\r\n");
+                }
             }
             _ => {
                 let (v, cls) = *rng.pick(BAD_CL);
@@ -775,6 +806,7 @@ pub fn gen_c18(rng: &mut Rng, caseid: u64, unix: bool, bound_ms: u64) -> Gen {
         as_reader_calls: calls,
         finish: Finish::Respond { status: 200, body_len: 12, declared: true, threshold: None, max_piece: 1000 },
         pre_delay_us: if rng.chance(1, 3) { rng.range(0, 2000) as u64 } else { 0 },
+        zero_read_after: None,
     };
     p.push_valid(&a, &wire_body, body, if chunked { LenExp::Exactly(None) } else { LenExp::Exactly(Some(len)) }, plan, "expecting");
     let interims = if expecting && asks { 1 } else { 0 };
@@ -853,6 +885,7 @@ pub fn gen_c04(rng: &mut Rng, caseid: u64, unix: bool, bound_ms: u64) -> Gen {
         as_reader_calls: 1,
         finish: Finish::Respond { status, body_len, declared, threshold, max_piece: *rng.pick(&[1usize, 100, 8192, 100000]).max(&(body_len / 5000 + 1)) },
         pre_delay_us: 0,
+        zero_read_after: None,
     };
     p.push_valid(&a, &[], Vec::new(), LenExp::Any, plan, "first");
     // the second request proves that the client found the end of the first message
